@@ -301,6 +301,18 @@ def run(ctx):
                 sy[:] = -1.0
                 sh[:] = -1.0
             one_signed(ctx, y * sy, yh * sh, 'signed:' + fam)
+    long_cases(ctx)
+
+
+def long_cases(ctx):
+    """LONG vectors (beyond 1024 / 4096 entries): chunked, strided or pairwise-blocked evaluation"""
+    rng = ctx.rng
+    for _ in range(2 if ctx.tier == 'quick' else 20):
+        n = rng.choice([rng.randrange(1100, 1600), rng.randrange(4097, 4400)])
+        y, yh = vec(rng, n, 'rand'), vec(rng, n, 'rand')
+        y[rng.randrange(0, n)] += 1000.0                         # one large entry somewhere: a strided / truncated pass misses it
+        x = np.cumsum([rng.choice([1, 2, 3, 4]) * 0.5 for _ in range(n)])
+        one(ctx, y, yh, x, 'long-vector')
 
 
 def replay(ctx, body):
